@@ -674,7 +674,7 @@ class Record(object):
 
     @staticmethod
     def fileset(names):
-        return {"names": set(names), "files": {}, "pending": {}}
+        return {"names": set(names), "files": {}, "pending": {}, "gone": set()}
 
 
 def glyph_bytes(files, ln, gn):
@@ -794,6 +794,7 @@ class Oracle(object):
             on_disk = self.set_names(key)
             st["names"] = (after[key + "_names"] & on_disk) | (st["names"] & after[key + "_names"])
             st["pending"] = {}
+            st["gone"] = set()
             for n in list(st["files"]):
                 if n not in st["names"]:
                     del st["files"][n]
@@ -926,7 +927,10 @@ class Oracle(object):
                 if b is not None:
                     st["pending"][name] = b
                 else:
+                    # the file was gone already: the font takes the deletion over without having reported it;
+                    # should the name come back in memory before the next save, reporting it once is fine
                     st["names"].discard(name)
+                    st["gone"].add(name)
             if setop and op[2] is not None and name in st["pending"]:
                 st["files"][name] = st["pending"].pop(name)
             for n in (after[key] - before[key]) | (rl & after[key]):
@@ -1026,6 +1030,8 @@ class Oracle(object):
                         opt_.add(((key, "added"), n))
             exp[(key, "added")] = add
             exp[(key, "deleted")] = (st["names"] - on_disk) & names
+            for n in (st["gone"] & names) - on_disk:
+                opt_.add(((key, "deleted"), n))
         return exp, opt_
 
     @staticmethod
@@ -1777,6 +1783,24 @@ def scenario(sim, k):
             gn = rng.choice(c)
             sim.loaded[ln].add(gn)
             return [["xglyph", ln, gn, "write", g(gn), sim.time()], ["test"], ["gget", ln, gn]]
+    if k in (12, 13):
+        # an image / data file deleted in memory, then touched or rewritten (or removed and created again) on disk
+        key, names, xop = ("img", sim.mem_img & sim.disk_img, "ximg") if k == 12 else ("dat", sim.mem_dat & sim.disk_dat, "xdat")
+        if names:
+            n = rng.choice(sorted(names))
+            (sim.mem_img if k == 12 else sim.mem_dat).discard(n)
+            ops = ([[key + "get", n]] if rng.random() < 0.5 else []) + [[key, n, None]]
+            r = rng.random()
+            if r < 0.35:
+                ops.append([xop, n, "touch", None, sim.time()])
+            elif r < 0.8:
+                ops.append([xop, n, "write", rng.randint(7, 9), sim.time()])
+            else:
+                ops += [[xop, n, "delete", None, sim.time()], ["test"], [xop, n, "write", rng.randint(7, 9), sim.time()]]
+            if rng.random() < 0.3:
+                ops += [["test"], [key, n, rng.randint(1, 6)]]      # taken back in memory afterwards
+                (sim.mem_img if k == 12 else sim.mem_dat).add(n)
+            return ops
     if k == 11 and both:
         # a glyph removed on disk while it is loaded (and edited) in memory
         gn = rng.choice(both)
@@ -1824,7 +1848,7 @@ def gen_case(rng, tier):
                 ops += sim.save()
             # B. scripted pattern and/or a batch of external edits
             if rng.random() < 0.6:
-                ops += scenario(sim, rng.randrange(12))
+                ops += scenario(sim, rng.randrange(14))
             for _ in range(rng.randint(0, 3)):
                 ops += sim.x_op()
             # C. in-memory ops while the external edits are unnoticed
